@@ -53,11 +53,18 @@ Unary(dst, op, s, ds) ==
                   \* arithmetic with a neutral plain number (0 + x, x + 0, 1 * x, x * 1, x / 1, x - 0, x ** 1, sum([x])):
                   \* the value of x, but - being arithmetic - a NEW array, never x itself
                   [] op \in NeutralOps -> x
+                  [] op = "apply_neg" -> Neg(x)              \* x.apply(np.negative): the documented generic element-wise call
                   [] op = "full_like" -> Full(x.dims, PConst(7))
                   [] op = "cast_to"   -> CastTo(x, ds)
                   [] op = "sum_to"    -> SumTo(x, ds)
                   [] op = "cumsum"    -> CumSum(x, ds[1])
        IN  Into(dst, v, "unary", <<dst, op, s, ds>>)
+
+\* x.apply(np.negative, inplace=True): the one documented way to change an array in place through a function;
+\* afterwards ordinary calls behave as before (nothing is remembered from the in-place call)
+InPlaceNeg(r) ==
+    /\ Defined(r)
+    /\ Into(r, Neg(ar[r]), "inplace_neg", <<r>>)
 
 \* z = x[key]
 Read(dst, s, key) ==
